@@ -152,9 +152,12 @@ func (r *Rule) isStatReusable(newRule *Rule) bool {
 
 // needsOwnStatisticForWarmUp: see generateStatFor.
 func (r *Rule) needsOwnStatisticForWarmUp() bool {
+	// (Of the intervals that leave no room for the previous one in the global statistic - longer than the
+	// global statistic less one bucket - only the length of the global statistic itself can be served from
+	// it at all. A rule with any other interval in that range has a statistic of its own whatever its
+	// strategy, and keeps it when its strategy is edited.)
 	return r.TokenCalculateStrategy == WarmUp && r.StatIntervalInMs != 0 && r.StatIntervalInMs != config.MetricStatisticIntervalMs() &&
-		r.StatIntervalInMs <= config.GlobalStatisticIntervalMsTotal() &&
-		r.StatIntervalInMs+config.GlobalStatisticBucketLengthInMs() > config.GlobalStatisticIntervalMsTotal()
+		r.StatIntervalInMs == config.GlobalStatisticIntervalMsTotal()
 }
 
 func (r *Rule) needStatistic() bool {
